@@ -17,7 +17,8 @@ for l in rows:
         note=''
         if os.path.exists(f'/verif/mutants/{name}.note'): note=' ('+open(f'/verif/mutants/{name}.note').read().strip()+')'
         res={'1':'killed','0':'SURVIVED'}.get(rc,f'inconclusive (rc={rc})')
-        mut.append(f"| {name} | {cid} | {res}{note} | {(sig.group(1) if sig else '-').replace('|','\\|')} |")
+        sg=(sig.group(1) if sig else '-').replace('|','\\|')
+        mut.append(f"| {name} | {cid} | {res}{note} | {sg} |")
 if mut:
     out=["# Sensitivity probes: own mutants","","Each patch is applied to a worktree of /repo, the harness is rebuilt against it and the property's quick tier is run (`tools/lanes.sh`, the same binary and commands as `./check <ID> quick`), then the tree is reverted. `killed` = exit 1 with a VIOLATION line.","","| mutant | property | result | failure signature |","|---|---|---|---|"]+sorted(mut)
     open('/verif/mutants/RESULTS.md','w').write("\n".join(out)+"\n")
